@@ -17,13 +17,8 @@ With clipping off (the property's premise):
   looping towards `T` directly: whenever the run towards `c` steps, so does the run towards `T` (same step), and when it
   does not step it leaves the projection untouched.
 
-**Full statement (DESIGN `steps_independent_of_checkpoints`) and what is missing.**  For checkpoint lists `A ⊆ B` with the
-same last element `T` (all elements `≤ T`), the runs of `Cfg.solveSaveAt` visit the same sequence of projections, hence
-take the same attempts, the same accepted steps and return the same `num_steps`.  The four theorems below are its
-single-call core (`…_partial` in the sense of the guide): lifting `two_checkpoints_merge` to whole `advanceWhile`/`scan`
-runs is an induction over the two fuel-indexed loops in which the run with more checkpoints makes additional
-non-stepping `loop` calls (fuel accounting), which is not done here.  The implementation is checked against the full
-statement by the superset runs of `harness/checks/c05.py`.
+The whole-run statement `steps_independent_of_checkpoints` (any two checkpoint lists with the same final checkpoint)
+is proved from these in `Pdq/Props/C05Scan.lean`.
 -/
 set_option linter.unusedSectionVars false
 namespace Pdq.C05Loop
